@@ -484,16 +484,26 @@ func c07Memberlist(c *core.Ctx) {
 		c.Undec("R4", "store=memberlist", mv.Pos(), "store write recv.store[key] = … not found")
 		return
 	}
+	// every effect on the stored value is behind the version compare: the store write AND the in-place merge
+	// (computeNewValue merges into curr.value, which is the stored Mergeable itself)
+	effects := []an.Loc{mg.Locate(store)}
+	effNames := []string{"store write"}
+	for _, call := range mv.Calls(false) {
+		if call.Func() != nil && (call.Func().Name() == "computeNewValue" || call.Func().Name() == "Merge" || call.Func().Name() == "RemoveTombstones") {
+			effects = append(effects, mg.Locate(call.Expr))
+			effNames = append(effNames, call.Func().Name())
+		}
+	}
 	t := an.Table{G: mg, From: mg.EntryLoc(), MayOnly: true,
 		Atoms:   []an.Atom{{Name: "cas", Values: []string{"eq", "gt"}}, {Name: "same", Values: []string{"T", "F"}}},
 		Binder:  &an.Binder{Fn: mv, Cmp: map[string]string{"p3|0": "cas"}, Eq: map[string]string{"recv.store[p0].Version|p3": "same"}},
-		Targets: []an.Loc{mg.Locate(store)}, Names: []string{"store write"},
+		Targets: effects, Names: effNames,
 		Want: func(r an.Row, _ int) an.Tri {
 			return an.FromBool(!(r["cas"] == "gt" && r["same"] == "F"))
 		}}
 	res := t.Run()
 	lockOK := lockedThroughout(mv, "recv.storeMu")
-	c.Check(res.OK() && lockOK, "R4", "store=memberlist", store.Pos(), fmt.Sprintf("store write unreachable when casVersion>0 ∧ stored version≠casVersion; whole function under storeMu=%v: %s", lockOK, res.Summary()), res.Rows)
+	c.Check(res.OK() && lockOK, "R4", "store=memberlist", store.Pos(), fmt.Sprintf("neither the store write nor the in-place merge/GC of the stored value (%v) is reachable when casVersion>0 ∧ stored version≠casVersion; whole function under storeMu=%v: %s", effNames, lockOK, res.Summary()), res.Rows)
 	// R5 version bump
 	bump := ""
 	ast.Inspect(store.Rhs[0], func(n ast.Node) bool {
